@@ -164,7 +164,7 @@ def strategy():
         n = draw(st.sampled_from([2, 3, 4, 5, 6]))
         gid = draw(st.integers(0, (1 << (n * (n - 1) // 2)) - 1))
         # few operators make the library enumerate 2^(>= 4n - n*m) kernel combinations: keep m large enough on 5-6 qubits
-        m_min = 1 if n <= 4 else (2 if n == 5 else 3)
+        m_min = 1 if n <= 4 else (3 if n == 5 else 4)
         m = draw(st.integers(m_min, n))
         kind = draw(st.sampled_from(["uniform", "planted", "planted", "corrupted"]))
         full = (1 << n) - 1
@@ -199,12 +199,18 @@ def strategy():
     return cases()
 
 
+_MEMO = {}
+
+
 def check_h(case):
-    return check_layer(case)[0]
+    res = check_layer(case)
+    _MEMO.clear()
+    _MEMO[repr(case)] = res
+    return res[0]
 
 
 def classify_h(case):
-    fails, info = check_layer(case)
+    fails, info = _MEMO.get(repr(case)) or check_layer(case)
     return nontrivial(case, info), {"branch": f"{'exists' if info['exists'] else 'absent'}:{info['outcome']}",
                                     "n_m": f"n={case['n']},m={len(case['ops'])}", "distribution": case.get("distribution", "?")}
 
@@ -233,7 +239,7 @@ def shard(arg):
                 i += 1
                 run_case(rep, {"n": n, "gid": gid, "ops": ops}, sample=(i % 20000 == 77))
     elif kind == "members":
-        _, n, orbits, k, seed, deadline = arg
+        _, n, orbits, k, seed, deadline, lean = arg
         reps = members.orbit_reps(n)
         N = 1 << (n * (n - 1) // 2)
         for gens, rng, meta in sweep.member_subjects(n, orbits, k, seed, "c16m"):
@@ -242,13 +248,15 @@ def shard(arg):
                 break
             ops = [[g[1], g[2]] for g in gens]
             o = meta["orbit"]
-            targets = [members.random_lc_walk(n, o, rng), members.random_lc_walk(n, o, rng), rng.randrange(N),
-                       members.random_lc_walk(n, rng.choice(reps), rng)]
-            for gid in targets:
+            targets = [members.random_lc_walk(n, o, rng), members.random_lc_walk(n, rng.choice(reps), rng)]
+            if not lean:
+                targets += [members.random_lc_walk(n, o, rng), rng.randrange(N)]
+            for ti, gid in enumerate(targets):
                 run_case(rep, {"n": n, "gid": gid, "ops": ops})
                 # and a proper subset of the generators
-                sub = ops[: max(3, n - 2)]
-                run_case(rep, {"n": n, "gid": gid, "ops": sub})
+                if not lean or ti == (meta["index"] + o) % 2:
+                    sub = ops[: max(3, n - 2)]
+                    run_case(rep, {"n": n, "gid": gid, "ops": sub})
     else:
         _, seed, n_examples, deadline = arg
         fw.hyp_search(strategy(), check_h, rep, seed, n_examples, classify=classify_h, deadline_ts=deadline)
@@ -264,12 +272,12 @@ def run(ctx):
             args.append(("groups", n, chunk, ctx.seed, dl))
     if q:
         for chunk in fw.split(members.orbit_reps(4), 4):
-            args.append(("members", 4, chunk, 6, ctx.seed, dl))
+            args.append(("members", 4, chunk, 6, ctx.seed, dl, False))
     for n in (5, 6):
         for chunk in fw.split(members.orbit_reps(n), 8 if n == 5 else 48):
-            args.append(("members", n, chunk, (2 if n == 5 else 1) if q else (8 if n == 5 else 4), ctx.seed, dl))
+            args.append(("members", n, chunk, (2 if n == 5 else 1) if q else (8 if n == 5 else 4), ctx.seed, dl, q and n == 6))
     for i in range(16):
-        args.append(("hyp", ctx.seed * 1000 + i, 60 if q else 1500, dl))
+        args.append(("hyp", ctx.seed * 1000 + i, 40 if q else 1500, dl))
     rep = fw.run_shards(ctx, "props.c16", "shard", args)
     rep.extra["exhaustive"] = False
     rep.extra["exhaustive_part"] = ("all operator sets with m<=2 on 2 qubits; every group n<=3 against every graph" +
